@@ -51,7 +51,7 @@ func verifC08Raw() {
 func verifC08Ext() {
 	maxE := 16
 	if vTier() > 0 {
-		maxE = 24
+		maxE = 20
 	}
 	E := vInt(0, maxE)
 	ext := vBytes(E)
@@ -126,7 +126,7 @@ func vRecordStream(k, maxBody int) []byte {
 func verifC08ReadArmed() {
 	k, body := 2, 3
 	if vTier() > 0 {
-		k, body = 3, 4
+		k, body = 3, 3
 	}
 	in := vRecordStream(k, body)
 	tr := newVTransport(in)
